@@ -236,6 +236,20 @@ func C05(c *core.Ctx) {
 		})
 	}
 
+	// the UP4 datapath: the same invariants on the guarded snapshot, and nothing left in the switch when no session is live
+	nu := 2
+	if c.Thorough() {
+		nu = 4
+	}
+
+	for k := 0; k < nu; k++ {
+		specs = append(specs, func(i int) (string, interface{}) {
+			dir, trace := shardDir(c, i)
+			return "e2e-up4", Up4Params{Dir: dir, Trace: trace, AgentBin: filepath.Join(c.BinDir, "verif-agent"), N4Addr: n4For(i),
+				Seed: c.Seed*1000 + 90 + int64(i), Scenarios: scen, Steps: steps, AddFlows: true, Snap: true, Wide: i%2 == 0}
+		})
+	}
+
 	res := runE2EMixed(c, len(specs), "TraceE2E_C05.cfg", func(i int) (string, interface{}) { return specs[i](i) })
 	judgeE2E(c, res, map[string]bool{"InEnvelope": true})
 }
